@@ -214,6 +214,9 @@ func confirm(dir string, v *violation, times int) (ok bool, note string) {
 	default:
 		// probe / integ / stress units are re-run as a whole
 	}
+	if v.crash && strings.HasSuffix(v.key, "/hang") {
+		times = 1
+	}
 	for i := 0; i < times; i++ {
 		d := runWorker(dir, &ru, 10*time.Minute, false)
 		again := d.crash != "" || (d.res != nil && len(d.res.Fails) > 0)
@@ -237,8 +240,10 @@ func main() {
 	dir := ev.Scratch("c20")
 	defer os.RemoveAll(dir)
 	thorough := r.Thorough()
+	unitWatchdog := 10 * time.Minute
 	if thorough {
 		r.Budget = 17 * time.Minute
+		unitWatchdog = 45 * time.Minute
 	} else {
 		r.Budget = 105 * time.Second
 	}
@@ -310,7 +315,7 @@ func main() {
 		wg.Add(1)
 		go func(j *job, w int) {
 			defer wg.Done()
-			d := runWorker(dir, j.u, 45*time.Minute, false)
+			d := runWorker(dir, j.u, unitWatchdog, false)
 			mu.Lock()
 			all = append(all, d)
 			free += w
@@ -348,7 +353,7 @@ func main() {
 			fmt.Fprintf(os.Stderr, "TIME %-40s %6.1fs cpu=%.1fs exec=%d states=%d\n", d.u.Name, d.wall.Seconds(), d.cpu.Seconds(), d.res.Executions, d.res.States)
 		}
 		if d.crash != "" {
-			viols = append(viols, &violation{key: part + "/crash/" + d.crash, crash: true, unit: d.u.ID, u: d.u, len: 0,
+			viols = append(viols, &violation{key: d.u.Kind + "/crash/" + d.crash, crash: true, unit: d.u.ID, u: d.u, len: 0,
 				what:   fmt.Sprintf("worker process of unit %s died (%s) while executing %s | stderr: %s", d.u.Name, d.crash, d.curRec, tail(d.stderr, 700)),
 				replay: crashReplay(d)})
 			pp["crashed_units"]++
@@ -389,7 +394,7 @@ func main() {
 				harness = append(harness, f.What)
 				continue
 			}
-			key := part + "/" + f.Kind
+			key := d.u.Kind + "/" + f.Kind // all seq units share the prefix seq/
 			if d.u.Kind == "defrag" || d.u.Kind == "integ" || d.u.Kind == "stress" {
 				key = f.Kind // already prefixed by the stage
 			}
@@ -429,7 +434,10 @@ func main() {
 		if viols[i].len != viols[j].len {
 			return viols[i].len < viols[j].len
 		}
-		return viols[i].unit < viols[j].unit
+		if viols[i].unit != viols[j].unit {
+			return viols[i].unit < viols[j].unit
+		}
+		return fmt.Sprint(viols[i].replay["history"], viols[i].replay["assign"]) < fmt.Sprint(viols[j].replay["history"], viols[j].replay["assign"])
 	})
 	reported := map[string]bool{}
 	confirmed, unrepro := 0, 0
@@ -557,26 +565,23 @@ func buildUnits(pr *ProbeResult, thorough bool) []*job {
 	var out []*job
 	id := 1
 	add := func(u *Unit, cost float64) {
+		if thorough && u.Kind == "seq" {
+			cost *= 10 // depth 8 instead of 6
+		}
 		u.ID = id
 		id++
 		out = append(out, &job{u, cost})
 	}
 	al := alphabet(pr)
 	nb := len(pr.Bounds)
-	depth, pdepth, vdepth, diff := 6, 5, 3, 24
+	depth, pdepth, vdepth, diff := 6, 6, 3, 24
 	if thorough {
 		depth, pdepth, vdepth, diff = 8, 8, 4, 48
 	}
-	// executor goroutines per unit (thorough: the windows are ~10x larger)
-	parFor := func(maxSize int) int {
-		if !thorough {
-			return 1
-		}
-		if maxSize > 16<<10 {
-			return 4
-		}
-		return 2
-	}
+	// One executor goroutine per worker process: measured, several executors in one
+	// process are slower than one (mmap/munmap serialise on the process's address
+	// space lock); parallelism comes from running units in separate processes.
+	parFor := func(maxSize int) int { return 1 }
 	// sliding windows of 8 sizes over the sorted alphabet (last window aligned to the end)
 	for i := 0; i < len(al); i += 8 {
 		j := i
@@ -631,18 +636,24 @@ func buildUnits(pr *ProbeResult, thorough bool) []*job {
 		rest    int
 		dist    []int
 	}
+	// The allocator defragments a class only when more than 12 pages' worth of its
+	// slots are free, and moves nothing when the least-used pages it selects are
+	// all empty. v0 is the family as designed (15 pages, the others empty): mostly
+	// the "nothing to move" branch, where the oracle demands no callback and no
+	// damage. v1/v2 keep survivors on every page, so every member relocates.
 	vars := []dv{
 		{15, false, OrdAsc, PatNone, []int{0, 7, 14}},
-		{14, true, OrdInterleaved, PatNone, []int{1, 6, 13}},
-		{20, false, OrdDesc, PatFirst, []int{2, 3, 19}},
+		{18, true, OrdInterleaved, PatFirst, []int{1, 6, 17}},
+		{30, false, OrdDesc, PatAlt, []int{2, 3, 29}},
 	}
 	if thorough {
 		vars = append(vars,
+			dv{14, true, OrdInterleaved, PatNone, []int{1, 6, 13}},
 			dv{15, false, OrdInterleaved, PatNone, []int{0, 1, 2}},
 			dv{14, false, OrdDesc, PatNone, []int{11, 12, 13}},
-			dv{16, true, OrdAsc, PatNone, []int{0, 8, 16}},
-			dv{24, false, OrdInterleaved, PatAlt, []int{0, 12, 23}},
-			dv{30, true, OrdAsc, PatAllBut, []int{5, 6, 30}},
+			dv{20, false, OrdAsc, PatFirst, []int{2, 3, 19}},
+			dv{24, false, OrdInterleaved, PatLast, []int{0, 12, 23}},
+			dv{40, true, OrdAsc, PatAlt, []int{5, 6, 40}},
 			dv{18, false, OrdInterleaved, PatLast, []int{0, 9, 17}},
 			dv{15, false, OrdAsc, PatNone, []int{0, 5, 9, 14}},
 			dv{20, true, OrdDesc, PatFirst, []int{1, 7, 13, 20}},
